@@ -1,7 +1,8 @@
 #!/bin/bash
 # Re-confirms every stored seeded change against /repo's HEAD and re-runs the quick checks that are expected to catch it.
 cd /verif
-declare -A extra=( [C12-2]="C01" [C06-2]="C10" [C16-3]="C10" [C11-2]="C07" [C07-2]="C11" [C08-3]="C17" [C08-2]="C05" [C15-2]="C14" [C14-2]="C13" [C15-3]="C13" [C04-2]="C14" )
+declare -A extra=( [C12-2]="C01" [C06-2]="C10" [C16-3]="C10" [C11-2]="C07" [C07-2]="C11" [C08-3]="C17" [C08-2]="C05" [C15-2]="C14" [C14-2]="C13" [C15-3]="C13"
+  [C04-4]="C02" [C01-5]="C08" [C03-5]="C07" [C06-5]="C02" [C09-4]="C18" [C11-5]="C07" [C12-4]="C10" [C12-5]="C17" [C13-4]="C14" [C14-5]="C15" [C15-4]="C13" [C15-5]="C13" [C07-5]="C11" )
 for d in seeded/*/; do
   id=$(basename $d); prop=${id%-*}
   race=""; case $prop in C18) race=1;; esac
